@@ -294,7 +294,7 @@ def oracle(case, r):
 def run(ctx):
     ctx.prove('LPVerif.Props.C10', 'LPVerif/Props/C10.lean', drivers=('Report',))
     build = ctx.build()
-    n = 250 if ctx.quick else 6000
+    n = 500 if ctx.quick else 8000
     if ctx.broken:
         n *= 3
     cases = [make_case(ctx.rng.fork('r%d' % i)) for i in range(n)]
